@@ -34,6 +34,18 @@ Ltac mx_step :=
 Ltac mx_rw := fail.
 Ltac mx := mx_unfold; repeat (first [reflexivity | congruence | progress mx_rw | mx_step; subst; cbn beta iota ]).
 
+Lemma bind_ext (m1 m2 : M) f1 f2 st :
+  (forall s, m1 s = m2 s) -> (forall v s, f1 v s = f2 v s) -> bind m1 f1 st = bind m2 f2 st.
+Proof. intros Hm Hf. unfold bind. rewrite Hm. destruct (m2 st) as [s [v|k]]; [apply Hf|reflexivity]. Qed.
+Lemma seq_ext (m1 m2 n1 n2 : M) st :
+  (forall s, m1 s = m2 s) -> (forall s, n1 s = n2 s) -> seq m1 n1 st = seq m2 n2 st.
+Proof. intros Hm Hn. apply bind_ext; [exact Hm|intros _; exact Hn]. Qed.
+Lemma catch_ext (m1 m2 : M) h st : (forall s, m1 s = m2 s) -> catch m1 h st = catch m2 h st.
+Proof. intros Hm. unfold catch. rewrite Hm. reflexivity. Qed.
+Lemma finally_ext (m1 m2 f : M) st : (forall s, m1 s = m2 s) -> finally m1 f st = finally m2 f st.
+Proof. intros Hm. unfold finally. rewrite Hm. reflexivity. Qed.
+
+
 Section GenIsRef.
 Variable P : prims.
 
@@ -71,8 +83,16 @@ Proof.
     gen_rc_enter, gen_rc_exit, gen_rc_begin, gen_rc_end, ref_scope.
   mx_unfold; repeat (first [reflexivity | congruence | rewrite gen_invoke_request_is_ref | mx_step; subst; cbn beta iota]).
 Qed.
+Lemma gen_invoke_exception_view_is_ref k rr st :
+  gen_invoke_exception_view P k rr st = ref_invoke_exception_view P k rr st.
+Proof. unfold gen_invoke_exception_view, ref_invoke_exception_view. mx. Qed.
 Lemma gen_error_handler_is_ref k st : gen_error_handler P k st = ref_error_handler P k st.
-Proof. unfold gen_error_handler, ref_error_handler. mx. Qed.
+Proof.
+  unfold gen_error_handler, ref_error_handler.
+  mx_unfold; repeat (first [reflexivity | congruence | rewrite gen_invoke_exception_view_is_ref | mx_step; subst; cbn beta iota]).
+Qed.
+Lemma gen_handle_request_is_ref st : gen_handle_request P st = ref_handle_request P st.
+Proof. unfold gen_handle_request, ref_handle_request, ref_handle_tail, notify_if. mx. Qed.
 Lemma gen_excview_tween_is_ref st : gen_excview_tween P st = ref_excview_tween P st.
 Proof.
   unfold gen_excview_tween, ref_excview_tween.
@@ -84,7 +104,9 @@ End GenIsRef.
 Section Inst.
 Variables (ev l : N) (sc : scn) (subrun : option M) (chain : M).
 Hypothesis Hchain : forall st, chain st = tween_chain ev l sc subrun st.
-Let P := prims_of ev l sc subrun chain.
+Variable hr : M.
+Hypothesis Hhr : forall st, hr st = handle_request l sc (vsub sc subrun) st.
+Let P := prims_of ev l sc subrun chain hr.
 
 Lemma bind_ext_l (m1 m2 : M) f s : m1 s = m2 s -> bind m1 f s = bind m2 f s.
 Proof. unfold bind. intros ->. reflexivity. Qed.
@@ -163,10 +185,10 @@ Lemma ref_invoke_body_inst tw st : ref_invoke_body P tw st = invoke_body ev l sc
 Proof.
   unfold ref_invoke_body, invoke_body, invoke_chain.
   destruct tw; unfold bind at 1; [replace (p_handle_tweens P st) with (tween_chain ev l sc subrun st) by (symmetry; apply Hchain)
-                                 | change (p_handle_orig P st) with (handle_request l sc subrun st)];
+                                 | replace (p_handle_orig P st) with (handle_request l sc (vsub sc subrun) st) by (symmetry; apply Hhr)];
   unfold bind at 3.
   - destruct (tween_chain ev l sc subrun st) as [s1 [r|k]]; [apply ref_body_tail|reflexivity].
-  - destruct (handle_request l sc subrun st) as [s1 [r|k]]; [apply ref_body_tail|reflexivity].
+  - destruct (handle_request l sc (vsub sc subrun) st) as [s1 [r|k]]; [apply ref_body_tail|reflexivity].
 Qed.
 Lemma ref_finish_request_inst st :
   ref_finish_request P st = match fin_loop l sc st with (s, Ok _) => (s, Ok 0) | r => r end.
@@ -204,11 +226,94 @@ Proof.
   change (ref_extensions P st) with (st, Ok 0). cbn iota.
   apply ref_scope_inst. intros s. apply ref_invoke_request_inst.
 Qed.
+(* _call_view as invoke_exception_view sees it vs. the model's call_views: same state; same result, or
+   "None / the last PredicateMismatch" against the model's HTTPNotFound *)
+Lemma call_views_f_rel : forall vs seen st, Forall (fun p => p <> 0) vs ->
+  match call_views_f l sc vs seen st, call_views l sc vs st with
+  | (s1, r1), (s2, r2) =>
+      s1 = s2 /\ ((r1 = r2 /\ r1 <> Ok 0) \/ ((r1 = Ok 0 \/ r1 = Ex K_PM) /\ r2 = Ex K_NOTFOUND))
+  end.
+Proof.
+  induction vs as [|p rest IH]; intros seen st F.
+  - cbn [call_views_f call_views]. destruct seen; cbn; split; auto.
+  - inversion F as [|? ? Hp Fr]; subst. cbn [call_views_f call_views].
+    destruct (N.eqb p P_DEFAULT_VIEW).
+    + cbn. split; [reflexivity|]. left. split; [reflexivity|]. intros X; injection X as X; contradiction.
+    + unfold catch, seq, bind, ret. destruct (hit0 l sc p st) as [s' [v|k2]].
+      * split; [reflexivity|]. left. split; [reflexivity|]. intros X; injection X as X; contradiction.
+      * destruct (N.eqb k2 K_PM); [apply IH; exact Fr|].
+        cbn. split; [reflexivity|]. left. split; [reflexivity|discriminate].
+Qed.
+Lemma exc_views_nonzero k : Forall (fun p => p <> 0) (exc_views ev k).
+Proof.
+  apply Forall_forall. intros p I. destruct (exc_views_pts _ _ _ I) as [-> | [-> | ->]]; discriminate.
+Qed.
 Lemma ref_error_handler_inst k st : ref_error_handler P k st = error_handler ev l sc k st.
-Proof. reflexivity. Qed.
+Proof.
+  unfold ref_error_handler, ref_invoke_exception_view, error_handler, frame, P, prims_of.
+  cbn [p_push p_pop p_call_exception_view p_is_notfound p_exc_notfound].
+  pose proof (call_views_f_rel (exc_views ev k) false) as R.
+  unfold seq. unfold catch, bind, finally, push, pop, upd_stk, ret, raise. cbn [stk log rq fq nr nf].
+  match goal with |- context [call_views_f l sc _ false ?s0] => specialize (R s0 (exc_views_nonzero k)) end.
+  destruct (call_views_f l sc (exc_views ev k) false _) as [s1 r1].
+  destruct (call_views l sc (exc_views ev k) _) as [s2 r2].
+  destruct R as [<- [[<- Hn] | [[-> | ->] ->]]].
+  - destruct r1 as [v|k2]; [|reflexivity]. destruct (N.eqb v 0) eqn:Ev; [|reflexivity].
+    apply N.eqb_eq in Ev. subst v. contradiction Hn; reflexivity.
+  - reflexivity.
+  - reflexivity.
+Qed.
 Lemma ref_excview_tween_inst st :
-  ref_excview_tween P st = excview_tween ev l sc (tween l sc P_UNDER_IN P_UNDER_OUT (handle_request l sc subrun)) st.
+  ref_excview_tween P st = excview_tween ev l sc (tween l sc P_UNDER_IN P_UNDER_OUT (handle_request l sc (vsub sc subrun))) st.
+Proof.
+  unfold ref_excview_tween, excview_tween, catch.
+  replace (p_handler P st) with (tween l sc P_UNDER_IN P_UNDER_OUT (handle_request l sc (vsub sc subrun)) st).
+  - destruct (tween l sc P_UNDER_IN P_UNDER_OUT (handle_request l sc (vsub sc subrun)) st) as [s1 [v|k]]; [reflexivity|].
+    apply ref_error_handler_inst.
+  - unfold P, prims_of. cbn [p_handler]. unfold tween. apply seq_ext; [reflexivity|intros s1].
+    apply bind_ext; [intros s2; symmetry; apply Hhr|reflexivity].
+Qed.
+Lemma bind_ret_l v (f : N -> M) s : bind (ret v) f s = f v s.
 Proof. reflexivity. Qed.
+Lemma derived_view_nonzero st st' v : derived_view l sc (vsub sc subrun) st = (st', Ok v) -> v <> 0.
+Proof.
+  unfold derived_view, seq. unfold bind, ret, raise. intros E.
+  destruct (hit l sc P_VIEW_PRED 0 0 true st) as [s1 [a|k]]; [|discriminate].
+  destruct (N.eqb a 0); [discriminate|].
+  destruct (hit l sc P_PERMITS 0 0 true s1) as [s2 [b|k]]; [|discriminate].
+  destruct (N.eqb b 0); [discriminate|].
+  destruct (view_body l sc (vsub sc subrun) s2) as [s3 [c|k]]; [|discriminate].
+  destruct (hit0 l sc P_RENDERER s3) as [s4 [d|k]]; [|discriminate].
+  injection E as _ <-. discriminate.
+Qed.
+Lemma ref_handle_tail_inst (rf : M) st :
+  ref_handle_tail P rf st =
+  seq (hit0 l sc P_BEFORE_TRAV) (seq rf (seq (hit0 l sc P_TRAVERSER) (seq (hit0 l sc P_CTX_FOUND) (derived_view l sc (vsub sc subrun))))) st.
+Proof.
+  unfold ref_handle_tail, notify_if, P, prims_of.
+  cbn [p_has_listeners p_notify_beforetraversal p_traverser p_notify_contextfound p_call_view p_exc_notfound].
+  unfold seq, bind, ret, raise. cbn [truthy N.eqb negb].
+  destruct (hit0 l sc P_BEFORE_TRAV st) as [s1 [v1|k]]; [|reflexivity].
+  destruct (rf s1) as [s2 [v2|k]]; [|reflexivity].
+  destruct (hit0 l sc P_TRAVERSER s2) as [s3 [v3|k]]; [|reflexivity].
+  destruct (hit0 l sc P_CTX_FOUND s3) as [s4 [v4|k]]; [|reflexivity].
+  destruct (derived_view l sc (vsub sc subrun) s4) as [s5 [v5|k]] eqn:E; [|reflexivity].
+  apply derived_view_nonzero in E. destruct (N.eqb v5 0) eqn:Ev; [|reflexivity].
+  apply N.eqb_eq in Ev. contradiction.
+Qed.
+Lemma ref_handle_request_inst st : ref_handle_request P st = handle_request l sc (vsub sc subrun) st.
+Proof.
+  unfold ref_handle_request, handle_request, notify_if.
+  change (p_has_listeners P) with (ret 1). change (p_notify_newrequest P) with (hit0 l sc P_NEWREQ).
+  change (p_has_mapper P) with (ret 1).
+  change (p_routes_mapper P) with (if s_route sc then hit l sc P_ROUTE_PRED 0 0 true else ret 0).
+  change (p_root_factory P) with (hit0 l sc P_ROOT_FACTORY).
+  change (p_route_factory P) with (hit0 l sc P_ROUTE_FACTORY).
+  apply seq_ext; [intros s; reflexivity|intros s1].
+  rewrite bind_ret_l. cbn beta. change (truthy 1) with true. cbn iota.
+  apply bind_ext; [reflexivity|intros matched s2].
+  destruct (N.eqb matched 0); apply ref_handle_tail_inst.
+Qed.
 
 (* generated = model, for the leaves of the pipeline interpreter *)
 Lemma gen_invoke_request_inst tw st : gen_invoke_request P tw st = invoke_request ev l sc tw subrun st.
@@ -219,8 +324,12 @@ Proof. rewrite gen_invoke_subrequest_is_ref. apply ref_invoke_subrequest_inst. Q
 Lemma gen_default_execution_policy_inst st :
   gen_default_execution_policy P st = frame l (invoke_request ev l sc true subrun) st.
 Proof. rewrite gen_default_execution_policy_is_ref. apply ref_default_execution_policy_inst. Qed.
+Lemma gen_handle_request_inst st : gen_handle_request P st = handle_request l sc (vsub sc subrun) st.
+Proof. rewrite gen_handle_request_is_ref. apply ref_handle_request_inst. Qed.
+Lemma gen_error_handler_inst k st : gen_error_handler P k st = error_handler ev l sc k st.
+Proof. rewrite gen_error_handler_is_ref. apply ref_error_handler_inst. Qed.
 Lemma gen_excview_tween_inst st :
-  gen_excview_tween P st = excview_tween ev l sc (tween l sc P_UNDER_IN P_UNDER_OUT (handle_request l sc subrun)) st.
+  gen_excview_tween P st = excview_tween ev l sc (tween l sc P_UNDER_IN P_UNDER_OUT (handle_request l sc (vsub sc subrun))) st.
 Proof. rewrite gen_excview_tween_is_ref. apply ref_excview_tween_inst. Qed.
 Lemma gen_loops_inst st :
   gen_process_response_callbacks P st = resp_loop l sc st /\
@@ -238,17 +347,6 @@ Definition sub_eq (a b : option M) : Prop :=
   | Some f, Some g => forall s, f s = g s
   | _, _ => False
   end.
-Lemma bind_ext (m1 m2 : M) f1 f2 st :
-  (forall s, m1 s = m2 s) -> (forall v s, f1 v s = f2 v s) -> bind m1 f1 st = bind m2 f2 st.
-Proof. intros Hm Hf. unfold bind. rewrite Hm. destruct (m2 st) as [s [v|k]]; [apply Hf|reflexivity]. Qed.
-Lemma seq_ext (m1 m2 n1 n2 : M) st :
-  (forall s, m1 s = m2 s) -> (forall s, n1 s = n2 s) -> seq m1 n1 st = seq m2 n2 st.
-Proof. intros Hm Hn. apply bind_ext; [exact Hm|intros _; exact Hn]. Qed.
-Lemma catch_ext (m1 m2 : M) h st : (forall s, m1 s = m2 s) -> catch m1 h st = catch m2 h st.
-Proof. intros Hm. unfold catch. rewrite Hm. reflexivity. Qed.
-Lemma finally_ext (m1 m2 f : M) st : (forall s, m1 s = m2 s) -> finally m1 f st = finally m2 f st.
-Proof. intros Hm. unfold finally. rewrite Hm. reflexivity. Qed.
-
 Lemma view_body_ext l sc a b st : sub_eq a b -> view_body l sc a st = view_body l sc b st.
 Proof.
   intros H. unfold view_body. destruct a as [f|], b as [g|]; simpl in H; try contradiction; [|reflexivity].
@@ -268,27 +366,42 @@ Lemma tween_ext l sc a b (h1 h2 : M) st : (forall s, h1 s = h2 s) -> tween l sc 
 Proof.
   intros H. unfold tween. apply seq_ext; [reflexivity|intros s1]. apply bind_ext; [exact H|reflexivity].
 Qed.
+Lemma tween_x_ext l sc a b sr1 sr2 (h1 h2 : M) st : sub_eq sr1 sr2 -> (forall s, h1 s = h2 s) ->
+  tween_x l sc a b sr1 h1 st = tween_x l sc a b sr2 h2 st.
+Proof.
+  intros Hs H. unfold tween_x. apply seq_ext; [reflexivity|intros s1]. apply bind_ext; [exact H|intros r s2].
+  apply seq_ext; [|reflexivity]. destruct sr1 as [f|], sr2 as [g|]; simpl in Hs; try contradiction; [exact Hs|reflexivity].
+Qed.
+Lemma vsub_eq sc a b : sub_eq a b -> sub_eq (vsub sc a) (vsub sc b).
+Proof. unfold vsub. destruct (N.eqb (sub_place sc) 1); [intros _; exact I|auto]. Qed.
+Lemma tsub_eq sc a b : sub_eq a b -> sub_eq (tsub sc a) (tsub sc b).
+Proof. unfold tsub. destruct (N.eqb (sub_place sc) 1); [auto|intros _; exact I]. Qed.
+Lemma sub_eq_refl a : sub_eq a a.
+Proof. destruct a; simpl; auto. Qed.
 Lemma tween_chain_ext ev l sc a b st : sub_eq a b -> tween_chain ev l sc a st = tween_chain ev l sc b st.
 Proof.
-  intros H. unfold tween_chain. apply tween_ext. intros s1. unfold excview_tween. apply catch_ext. intros s2.
-  apply tween_ext. intros s3. apply handle_request_ext. exact H.
+  intros H. unfold tween_chain. apply tween_x_ext; [apply tsub_eq; exact H|]. intros s1.
+  unfold excview_tween. apply catch_ext. intros s2.
+  apply tween_ext. intros s3. apply handle_request_ext. apply vsub_eq. exact H.
 Qed.
 Lemma invoke_request_ext ev l sc tw a b st :
   sub_eq a b -> invoke_request ev l sc tw a st = invoke_request ev l sc tw b st.
 Proof.
   intros H. unfold invoke_request. apply finally_ext. intros s1. unfold invoke_body.
   apply bind_ext; [|reflexivity]. intros s2. unfold invoke_chain.
-  destruct tw; [apply tween_chain_ext|apply handle_request_ext]; exact H.
+  destruct tw; [apply tween_chain_ext; exact H|apply handle_request_ext; apply vsub_eq; exact H].
 Qed.
 Lemma frame_ext l (m1 m2 : M) st : (forall s, m1 s = m2 s) -> frame l m1 st = frame l m2 st.
 Proof. intros H. unfold frame. apply seq_ext; [reflexivity|intros s1]. apply finally_ext. exact H. Qed.
 Lemma fresh_ext (m1 m2 : M) st : (forall s, m1 s = m2 s) -> with_fresh_request m1 st = with_fresh_request m2 st.
 Proof. intros H. unfold with_fresh_request. rewrite H. reflexivity. Qed.
 
+Lemma gen_hr_is_model ev l sc subrun st : gen_hr ev l sc subrun st = handle_request l sc (vsub sc subrun) st.
+Proof. unfold gen_hr. apply gen_handle_request_inst. Qed.
 Lemma gen_chain_is_model ev l sc subrun st : gen_chain ev l sc subrun st = tween_chain ev l sc subrun st.
 Proof.
-  unfold gen_chain, tween_chain. apply tween_ext. intros s1.
-  apply (gen_excview_tween_inst ev l sc subrun (ret 0)).
+  unfold gen_chain, tween_chain. apply tween_x_ext; [apply sub_eq_refl|]. intros s1.
+  apply (gen_excview_tween_inst ev l sc subrun (ret 0) _ (gen_hr_is_model ev l sc subrun)).
 Qed.
 
 Fixpoint gen_run_request_is_model (sc : scn) : forall ev l tw st,
@@ -296,38 +409,45 @@ Fixpoint gen_run_request_is_model (sc : scn) : forall ev l tw st,
 Proof.
   intros ev l tw st. destruct sc as [r fs rs sb]. cbn [gen_run_request run_request s_sub].
   apply fresh_ext. intros s1. unfold prims_top.
-  rewrite (gen_invoke_subrequest_inst ev l (Scn r fs rs sb) _ _ (gen_chain_is_model ev l (Scn r fs rs sb) _)).
+  rewrite (gen_invoke_subrequest_inst ev l (Scn r fs rs sb) _ _ (gen_chain_is_model ev l (Scn r fs rs sb) _)
+             _ (gen_hr_is_model ev l (Scn r fs rs sb) _)).
   apply frame_ext. intros s2. apply invoke_request_ext.
-  destruct sb as [|tw' sc']; [exact I|]. simpl. intros s3. apply gen_run_request_is_model.
+  destruct sb as [|tw' pl' sc']; [exact I|]. simpl. intros s3. apply gen_run_request_is_model.
 Qed.
 
 Theorem gen_run_top_is_model ev sc s0 : gen_run_top ev sc s0 = run_top ev sc s0.
 Proof.
   unfold gen_run_top, run_top. destruct sc as [r fs rs sb]. cbn [run_request s_sub].
   apply fresh_ext. intros s1. unfold prims_top.
-  rewrite (gen_default_execution_policy_inst ev 0 (Scn r fs rs sb) _ _ (gen_chain_is_model ev 0 (Scn r fs rs sb) _)).
+  rewrite (gen_default_execution_policy_inst ev 0 (Scn r fs rs sb) _ _ (gen_chain_is_model ev 0 (Scn r fs rs sb) _)
+             _ (gen_hr_is_model ev 0 (Scn r fs rs sb) _)).
   apply frame_ext. intros s2. apply invoke_request_ext.
-  destruct sb as [|tw' sc']; [exact I|]. simpl. intros s3. apply gen_run_request_is_model.
+  destruct sb as [|tw' pl' sc']; [exact I|]. simpl. intros s3. apply gen_run_request_is_model.
 Qed.
 
-Theorem gen_request_is_model : forall ev l sc subrun chain,
+Theorem gen_request_is_model : forall ev l sc subrun chain hr,
   (forall st, chain st = tween_chain ev l sc subrun st) ->
-  let P := prims_of ev l sc subrun chain in
+  (forall st, hr st = handle_request l sc (vsub sc subrun) st) ->
+  let P := prims_of ev l sc subrun chain hr in
+  (forall st, gen_handle_request P st = handle_request l sc (vsub sc subrun) st) /\
+  (forall k st, gen_error_handler P k st = error_handler ev l sc k st) /\
   (forall tw st, gen_invoke_request P tw st = invoke_request ev l sc tw subrun st) /\
   (forall tw st, gen_invoke_subrequest P tw st = frame l (invoke_request ev l sc tw subrun) st) /\
   (forall st, gen_default_execution_policy P st = frame l (invoke_request ev l sc true subrun) st) /\
   (forall st, gen_excview_tween P st =
-              excview_tween ev l sc (tween l sc P_UNDER_IN P_UNDER_OUT (handle_request l sc subrun)) st) /\
+              excview_tween ev l sc (tween l sc P_UNDER_IN P_UNDER_OUT (handle_request l sc (vsub sc subrun))) st) /\
   (forall st, gen_process_response_callbacks P st = resp_loop l sc st) /\
   (forall st, gen_process_finished_callbacks P st = fin_loop l sc st).
 Proof.
-  intros ev l sc subrun chain H P. repeat match goal with |- _ /\ _ => split end; intros.
-  - apply gen_invoke_request_inst; exact H.
-  - apply gen_invoke_subrequest_inst; exact H.
-  - apply gen_default_execution_policy_inst; exact H.
-  - apply gen_excview_tween_inst.
-  - apply (gen_loops_inst ev l sc subrun chain st).
-  - apply (gen_loops_inst ev l sc subrun chain st).
+  intros ev l sc subrun chain hr H H2 P. repeat match goal with |- _ /\ _ => split end; intros.
+  - apply gen_handle_request_inst.
+  - apply gen_error_handler_inst.
+  - apply gen_invoke_request_inst; assumption.
+  - apply gen_invoke_subrequest_inst; assumption.
+  - apply gen_default_execution_policy_inst; assumption.
+  - apply gen_excview_tween_inst; assumption.
+  - apply (gen_loops_inst ev l sc subrun chain hr st).
+  - apply (gen_loops_inst ev l sc subrun chain hr st).
 Qed.
 
 (* the property theorems restated for the interpreter assembled from the GENERATED programs *)
@@ -348,7 +468,9 @@ Theorem gen_is_ref : forall P : prims,
   (forall st, gen_default_execution_policy P st = ref_default_execution_policy P st) /\
   (forall tw st, gen_invoke_subrequest P tw st = ref_invoke_subrequest P tw st) /\
   (forall k st, gen_error_handler P k st = ref_error_handler P k st) /\
-  (forall st, gen_excview_tween P st = ref_excview_tween P st).
+  (forall st, gen_excview_tween P st = ref_excview_tween P st) /\
+  (forall k rr st, gen_invoke_exception_view P k rr st = ref_invoke_exception_view P k rr st) /\
+  (forall st, gen_handle_request P st = ref_handle_request P st).
 Proof.
   intros P. repeat match goal with |- _ /\ _ => split end; intros.
   - apply gen_process_response_callbacks_is_ref.
@@ -360,6 +482,8 @@ Proof.
   - apply gen_invoke_subrequest_is_ref.
   - apply gen_error_handler_is_ref.
   - apply gen_excview_tween_is_ref.
+  - apply gen_invoke_exception_view_is_ref.
+  - apply gen_handle_request_is_ref.
 Qed.
 
 (* ---- one request object through invoke_request twice (retrying execution policy) *)
@@ -465,7 +589,7 @@ Theorem gen_run_retry_is_model ev mode sc1 sc2 s0 : gen_run_retry ev mode sc1 sc
 Proof.
   unfold gen_run_retry, run_retry. apply fresh_ext. intros s1. apply frame_ext. intros s2.
   apply retry_body_ext; intros s; unfold prims_top;
-    apply gen_invoke_request_inst; intros s'; apply gen_chain_is_model.
+    (apply gen_invoke_request_inst; intros s'; [apply gen_chain_is_model|apply gen_hr_is_model]).
 Qed.
 Example ex_retry :
   let sc1 := Scn false [mkFault P_VIEW K_PLAIN 0] [mkReg P_NEWREQ 3 0; mkReg P_VIEW 2 0] NoSub in
